@@ -72,7 +72,7 @@ PROPS = {
             "Xet.Merkle.C06_hashedwrite_retry_exact",
             "Xet.Hash.C06_base64_roundtrip", "Xet.Hash.C06_base64_shape", "Xet.Hash.C06_base64_injective",
             "Xet.Hash.C06_base64_bytes_roundtrip", "Xet.Hash.C06_base64_rejects_padding",
-            "Xet.Hash.C06_base64_canonical", "Xet.Hash.C06_base64_unique_text",
+            "Xet.Hash.C06_base64_canonical", "Xet.Hash.C06_base64_unique_text", "Xet.Hash.C06_base64_parse_iff",
         ],
         "suites": ["hashes", "xorb_validate"],
         "level_text": "Theorems for every chunk list and every choice of hash primitives: producer xorb hash = validators' route, merge "
